@@ -139,12 +139,14 @@ static unsigned long long fhash(int *ex) {
     unsigned long long h = 1469598103934665603ULL;
     MPI_Barrier(MPI_COMM_WORLD);
     FILE *f = fopen(path, "rb");
-    if (!f) { *ex = 0; return 0; }
+    if (!f) { *ex = 0; MPI_Barrier(MPI_COMM_WORLD); return 0; }
     *ex = 1;
     unsigned char buf[8192]; size_t n;
     while ((n = fread(buf, 1, sizeof buf, f)) > 0)
         for (size_t i = 0; i < n; i++) { h ^= buf[i]; h *= 1099511628211ULL; }
     fclose(f);
+    /* nobody goes on (and writes) before every rank has finished reading */
+    MPI_Barrier(MPI_COMM_WORLD);
     return h ^ 0x9e3779b97f4a7c15ULL;
 }
 
@@ -459,8 +461,11 @@ int main(int argc, char **argv) {
             fprintf(res, "e=%d %s chg=%d ex=%d val=%lld\n", e, sb, chg, ex1, val);
             if (line[0] == 'C') {
                 if (nseq < MAXSEQ) strcpy(seq[nseq++], line);
-            } else if (e == NC_NOERR || chg || !same(s0, s1)) {
-                rebuild();
+            } else {
+                /* the decision to restore must be the same on every rank (rebuild() is collective) */
+                int mine = (e == NC_NOERR || chg || !same(s0, s1)), any = mine;
+                if (nprocs > 1) MPI_Allreduce(&mine, &any, 1, MPI_INT, MPI_LOR, MPI_COMM_WORLD);
+                if (any) rebuild();
             }
         } else {
             fprintf(res, "bad-line\n");
